@@ -11,9 +11,11 @@ Necessary clauses decided (not value equality):
  (c) def/indef      KeyValuePairs, NonEmptyKeyValuePairs, MaybeIndefArray: the Def arm writes a definite header, the Indef arm
                     an indefinite one closed by end(), and the decoder maps Map/Array -> Def, MapIndef/ArrayIndef -> Indef;
                     Nullable: Null <-> null(), Undefined <-> undefined(), anything else <-> the inner value (R-DUAL by E4).
- (d) width table    AnyUInt: for every unsigned head form (immediate 0..=23, 24, 25, 26, 27) the variant the decoder builds is
-                    the variant whose encoder writes that same head byte followed by the big-endian argument of the right
-                    width, including both sides of the 23/24 split (oracle: RFC 8949 additional information table).
+ (d) width table    AnyUInt, decided on the head *form*, not on the value: for every unsigned head form the decoder accepts
+                    (immediate 0..=23; head 24 with values below and above 24, i.e. including the non-minimal `18 05`; 25 also with
+                    a small value; 26; 27) the variant the decoder builds carries the value and is the variant whose encoder
+                    writes that same head byte followed by the big-endian argument of the right width
+                    (oracle: RFC 8949 additional information table; minicbor's datatype() is U8 for heads 0x00..=0x18).
  (e) verbatim       AnyCbor::decode captures input[start..end] around skip(); AnyCbor::encode writes exactly those bytes.
  (f) R-SHAPE        every hand-written Encode in utils.rs is one well-formed item per arm and dual to its Decode (E4), with the
                     generic-parameter contract of OrderPreservingProperties<P> (P = one key + one value) checked on every
@@ -262,16 +264,22 @@ def anyuint_clause(res, m):
         for t in a.tokens:
             parts.extend(_byte_parts(t.val))
         heads[a.variant] = parts
-    # head forms: (data::Type the decoder sees, sample value or None, expected head constant or None for immediate, argument width)
-    forms = [("U8", 0, None, 1), ("U8", ai["immediate_max"], None, 1), ("U8", ai["immediate_max"] + 1, ai["one_byte"], 1), ("U8", 255, ai["one_byte"], 1),
-             ("U16", None, ai["two_bytes"], 2), ("U32", None, ai["four_bytes"], 4), ("U64", None, ai["eight_bytes"], 8)]
-    rngs = {"U8": (0, 255), "U16": (256, 65535), "U32": (65536, 2 ** 32 - 1), "U64": (2 ** 32, 2 ** 64 - 1)}
+    # head forms, decided on the *head byte* (not on the value): (data::Type the decoder sees, first byte of the item or None =
+    # the value itself (immediate form), sample value or None, argument width).  minicbor's datatype() is Type::U8 both for the
+    # immediate form and for head 0x18, so the non-minimal items `18 00` .. `18 17` are accepted too and must be re-encoded
+    # with head 0x18.
+    imm = ai["immediate_max"]
+    forms = [("U8", None, 0, 1), ("U8", None, imm, 1),
+             ("U8", ai["one_byte"], 5, 1), ("U8", ai["one_byte"], imm, 1), ("U8", ai["one_byte"], imm + 1, 1), ("U8", ai["one_byte"], 255, 1),
+             ("U16", ai["two_bytes"], None, 2), ("U16", ai["two_bytes"], 5, 2), ("U32", ai["four_bytes"], None, 4), ("U64", ai["eight_bytes"], None, 8)]
+    rngs = {"U8": (0, 255), "U16": (0, 65535), "U32": (0, 2 ** 32 - 1), "U64": (0, 2 ** 64 - 1)}
     n = 0
-    for kind, val, head, width in forms:
+    for kind, head, val, width in forms:
         n += 1
-        key = "d:%s%s" % (kind, "" if val is None else "=%d" % val)
+        key = "d:head=%s:%s%s" % ("immediate" if head is None else head, kind, "" if val is None else "=%d" % val)
         arm = Arm()
-        arm.tokens = [Tok("item", kinds=frozenset([kind]), val=("c", val) if val is not None else None, how="u64", rng=rngs[kind] if val is None else (val, val), ty="u64")]
+        arm.tokens = [Tok("item", kinds=frozenset([kind]), val=("c", val) if val is not None else None, how="u64", rng=rngs[kind] if val is None else (val, val), ty="u64",
+                          head=("c", head) if head is not None else ("c", val))]
         keep = []
         try:
             leaves = m.run_decoder(dms[0], arm, keep)
@@ -280,7 +288,8 @@ def anyuint_clause(res, m):
             continue
         bad = [l for l in leaves if l[0] != "ok"]
         if bad or len(keep) != 1:
-            res.violation(key + ":decoder-" + (bad[0][0] if bad else "forks"), "AnyUInt::decode does not accept an unsigned integer with a %s head%s: %s" % (kind, "" if val is None else " of value %d" % val, bad[0][2] if bad else "several outcomes"),
+            res.violation(key + ":decoder-" + (bad[0][0] if bad else "forks"), "AnyUInt::decode does not accept (or does not decide on what the analysis knows: head byte, data::Type, value) an unsigned integer with head %s%s: %s" % (
+                "byte = value (immediate)" if head is None else "byte %d" % head, "" if val is None else " and value %d" % val, bad[0][2] if bad else "several outcomes"),
                           where=dms[0].where, rule="R-DUAL")
             continue
         v = keep[0][1]
@@ -303,12 +312,13 @@ def anyuint_clause(res, m):
         ok_shape = consts == want_consts and len(bes) == 1 and bes[0][2] == width and parts[-1] == bes[0] \
             and bes[0][1][0] == "sym" and bes[0][1][1] == "self.0"
         desc = " ".join(str(p[1]) if p[0] == "c" else "be%s(%s)" % (p[2], p[1][1] if p[1][0] == "sym" else "?") for p in parts)
+        hd = "immediate head" if head is None else "head byte %d" % head
         if ok_shape:
-            res.ok(key, "R-DUAL", "%s head%s -> AnyUInt::%s -> encoder writes [%s]" % (kind, "" if val is None else " (value %d)" % val, variant, desc))
+            res.ok(key, "R-DUAL", "%s (%s)%s -> AnyUInt::%s -> encoder writes [%s]" % (hd, kind, "" if val is None else ", value %d" % val, variant, desc))
         else:
             res.violation(key + ":=>%s:writes=%s" % (variant, desc.replace(" ", ",")),
-                          "an unsigned integer with a %s head%s decodes to AnyUInt::%s, whose encoder writes [%s] instead of %s followed by the %d-byte big-endian value: the original width is not preserved" % (
-                              kind, "" if val is None else " of value %d" % val, variant, desc, "the value itself as the head byte" if head is None else "head byte %d" % head, width),
+                          "an unsigned integer written with %s%s (data::Type %s) decodes to AnyUInt::%s, whose encoder writes [%s] instead of %s followed by the %d-byte big-endian value: the bytes accepted are not the bytes re-encoded" % (
+                              hd, "" if val is None else " and value %d" % val, kind, variant, desc, "the value itself as the head byte" if head is None else "head byte %d" % head, width),
                           where=ims[0].where, rule="R-DUAL")
     return n
 
@@ -427,7 +437,7 @@ def run(tier):
     # (c)
     res.floor("def/indef and nullable table rows (c)", defindef_clause(res, m, reps), 9)
     # (d)
-    res.floor("AnyUInt head forms (d)", anyuint_clause(res, m), 7)
+    res.floor("AnyUInt head forms (d)", anyuint_clause(res, m), 9)
     # (f) contract
     res.floor("generic-parameter contracts checked on instantiations (f)", param_contract_clause(res, m, table), 1)
     for a, r in sorted(reps.items()):
